@@ -23,27 +23,30 @@ import (
 	"github.com/ErdemOzgen/blackdagger/internal/agent"
 	"github.com/ErdemOzgen/blackdagger/internal/client"
 	"github.com/ErdemOzgen/blackdagger/internal/dag"
+	"github.com/ErdemOzgen/blackdagger/internal/dag/executor"
 	dsclient "github.com/ErdemOzgen/blackdagger/internal/persistence/client"
 	"github.com/ErdemOzgen/blackdagger/verifh/vh"
 )
 
 type AgentStop struct {
-	Class        string `json:"class"`
-	Sub          string `json:"sub"`
-	K            int    `json:"k"`
-	MaxCleanUpS  int    `json:"max_cleanup_s"`
-	SleepS       int    `json:"sleep_s"`
-	Started      bool   `json:"started"`       // the step's process was seen running before the stop
-	StopToEndMs  int64  `json:"stop_to_end_ms"` // from Agent.Signal to the return of Agent.Run
-	SignalRetMs  int64  `json:"signal_ret_ms"`  // how long Agent.Signal itself took
-	Status       string `json:"status"`
-	Err          string `json:"err"`
-	ChildAlive   bool   `json:"child_alive"`
-	Hung         bool   `json:"hung"`
-	Infra        string `json:"infra,omitempty"`
+	Class       string `json:"class"`
+	Sub         string `json:"sub"`
+	K           int    `json:"k"`
+	MaxCleanUpS int    `json:"max_cleanup_s"`
+	SleepS      int    `json:"sleep_s"`
+	Started     bool   `json:"started"`        // the step's process was seen running before the stop
+	StopToEndMs int64  `json:"stop_to_end_ms"` // from Agent.Signal to the return of Agent.Run
+	SignalRetMs int64  `json:"signal_ret_ms"`  // how long Agent.Signal itself took
+	Status      string `json:"status"`
+	Err         string `json:"err"`
+	ChildAlive  bool   `json:"child_alive"`
+	Hung        bool   `json:"hung"`
+	Infra       string `json:"infra,omitempty"`
 }
 
-func writeScript(path, body string) error { return os.WriteFile(path, []byte("#!/bin/sh\n"+body+"\n"), 0o755) }
+func writeScript(path, body string) error {
+	return os.WriteFile(path, []byte("#!/bin/sh\n"+body+"\n"), 0o755)
+}
 
 func runAgentStop(work string, k int, sub string, sleepS, cleanupS int) AgentStop {
 	res := AgentStop{Class: "agentstop", Sub: sub, K: k, MaxCleanUpS: cleanupS, SleepS: sleepS}
@@ -128,6 +131,26 @@ func runAgentStop(work string, k int, sub string, sleepS, cleanupS int) AgentSto
 	return res
 }
 
+// the contract of the command executor the scripted executor relies on: a Kill that arrives before Run has started the
+// process is delivered when the process starts (fix fc2d5bb)
+func killBeforeRun(k int) AgentStop {
+	res := AgentStop{Class: "agentstop", Sub: "killbeforerun", K: k, SleepS: 5, Started: true}
+	ctx := dag.NewContext(context.Background(), nil, nil, "", "")
+	ex, err := executor.NewExecutor(ctx, dag.Step{Name: "kbr", Command: "sleep", Args: []string{"5"}, OutputVariables: &dag.SyncMap{}})
+	if err != nil {
+		res.Infra = err.Error()
+		return res
+	}
+	_ = ex.Kill(syscall.SIGTERM)
+	t0 := time.Now()
+	rerr := ex.Run()
+	res.StopToEndMs = time.Since(t0).Milliseconds()
+	if rerr != nil {
+		res.Err = rerr.Error()
+	}
+	return res
+}
+
 func agentStopMain(outPath, work string) {
 	out, err := vh.NewOut(outPath)
 	if err != nil {
@@ -152,4 +175,5 @@ func agentStopMain(outPath, work string) {
 	for _, r := range res {
 		out.Put(r)
 	}
+	out.Put(killBeforeRun(len(jobs)))
 }
